@@ -58,6 +58,7 @@ class Spec:
         self.loops = {}       # n -> [lines]
         self.inserts = []     # (anchor, [lines])
         self.substs = []
+        self.lates = []
         self.sig = None       # full replacement of the signature text (rare)
         self.nocanary = None
         self.var_requires = {}
@@ -122,7 +123,8 @@ class Spec:
                 body = []
                 self.inserts.append((anchor, body))
                 cur = body
-            elif s.startswith("@subst"):
+            elif s.startswith("@subst") or s.startswith("@late"):
+                is_late = s.startswith("@late")
                 parts = s.split()
                 name = parts[1]
                 count = None
@@ -144,8 +146,13 @@ class Spec:
                 while lines[i].strip() != ">>>":
                     rep.append(lines[i])
                     i += 1
-                self.substs.append({"name": name, "pat": "\n".join(pat), "rep": "\n".join(rep).strip("\n"),
-                                    "count": count, "phase": phase})
+                if is_late:
+                    # plain-text replacement on the final text (for Verus-only syntax that the extractor's
+                    # Rust parser cannot read); must keep the number of lines
+                    self.lates.append({"name": name, "pat": "\n".join(pat).strip("\n"), "rep": "\n".join(rep).strip("\n"), "count": count})
+                else:
+                    self.substs.append({"name": name, "pat": "\n".join(pat), "rep": "\n".join(rep).strip("\n"),
+                                        "count": count, "phase": phase})
                 cur = None
             elif s.startswith("@"):
                 raise ValueError("%s: unknown directive %s" % (self.path, s))
@@ -305,6 +312,14 @@ def splice_function(u, spec, mode, canary=False, variants=(), rename=None):
                     raise LostAnchor("%s: @insert loop %d head: no such loop" % (spec.key, n))
                 edits.append((r["loops"][n - 1]["body_open"] + 1, ins))
                 continue
+            if anchor == "fn tail":
+                # right before the final statement / result expression of the function body
+                t = sig.get("tail")
+                if t is None:
+                    raise LostAnchor("%s: @insert fn tail: empty body" % spec.key)
+                ls = text.rfind("\n", 0, t) + 1
+                edits.append((ls, ins.lstrip("\n")))
+                continue
             if anchor == "fn head":
                 edits.append((body_open + 1, ins))
                 continue
@@ -334,6 +349,15 @@ def splice_function(u, spec, mode, canary=False, variants=(), rename=None):
     for off, s in sorted(edits, key=lambda e: -e[0]):
         o = off - body_open
         new_body = new_body[:o] + s + new_body[o:]
+
+    if mode == "prove":
+        for lt in spec.lates:
+            n = new_body.count(lt["pat"])
+            if lt["count"] != "*" and n != (lt["count"] if lt["count"] is not None else 1):
+                raise LostAnchor("%s: @late %s fired %d times" % (spec.key, lt["name"], n))
+            if lt["pat"].count("\n") != lt["rep"].count("\n"):
+                raise ValueError("%s: @late %s changes the number of lines" % (spec.key, lt["name"]))
+            new_body = new_body.replace(lt["pat"], lt["rep"])
 
     def emit_copy(is_canary):
         contract = []
